@@ -409,6 +409,11 @@ def _fails_same(world, program, oracle, budget):
         return False
     budget[0] -= 1
     res = run_forked(world, program)
+    if res["ok"] is None and str(res.get("msg", "")).startswith("timeout"):
+        # hanging candidates would turn minimisation into hours: two of them end it
+        budget.append("timeout")
+        if budget.count("timeout") >= 2:
+            budget[0] = 0
     return res["ok"] is False and res["oracle"] == oracle
 
 
